@@ -28,7 +28,7 @@ DEFAULT_SEED = 1515
 RUNS = {"quick": 800, "thorough": 40000}
 JOBS = {"quick": 8, "thorough": 16}
 SEARCH_SPACE = "histories of load() calls on one long-lived dataset x interrupt faults (k-th file open raises KeyboardInterrupt/EIO, predicate raises at its k-th evaluation)"
-RULE = ("one run = one world + one history of 2..8 load() calls on one RamsesDataset, each compared with a fresh dataset given the same arguments; "
+RULE = ("one run = one world + one history of 2..8 load() calls on one RamsesDataset (11 call kinds incl. a predicate no cell satisfies), each compared with a fresh dataset given the same arguments and with the counts in the metadata; "
         "distinct = hash of (world, history); non-trivial = >= 2 successful calls of different kinds, at least one of which sets per-call reader state "
         "(position/level predicate, cpu_list, variable subset) or the history contains a fired interrupt followed by a successful call")
 ASSUMPTIONS = [
@@ -51,7 +51,7 @@ def prepare(tier):
 
 
 def gen_call(rng, p):
-    kinds = ["full", "groups", "vars", "pred_pos", "pred_val", "pred_level", "cpu_list", "sortby", "mesh_off", "part_only"]
+    kinds = ["full", "groups", "vars", "pred_pos", "pred_val", "pred_level", "cpu_list", "sortby", "mesh_off", "part_only", "pred_none"]
     k = rng.choice(kinds)
     c = {"kind": k}
     mesh_raw = ["level", "cpu", "dx"] + ["position_" + x for x in "xyz"[: p["ndim"]]] + list(p["hydro_vars"])
@@ -70,6 +70,9 @@ def gen_call(rng, p):
         c["values"] = [gen_value_pred(rng, p, ncells_hint=rng.choice([8, 64, 300]))]
     elif k == "pred_level":
         c["level"] = gen_level_pred(rng, p["levelmin"], p["levelmax"])
+    elif k == "pred_none":
+        # a predicate no cell satisfies (stored values are positive): a fresh dataset returns an empty mesh group
+        c["values"] = [{"var": rng.choice(list(p["hydro_vars"])), "op": rng.choice(["lt", "le"]), "code": -1.0}]
     elif k == "cpu_list":
         c["cpu_list"] = rng.sample(range(1, p["ncpu"] + 1), rng.randrange(1, p["ncpu"] + 1))
     elif k == "sortby":
@@ -87,7 +90,7 @@ def gen_call(rng, p):
         if not c["sortby"]:
             c["sortby"]["mesh"] = "dx"
     # optional extras riding on any call
-    if k in ("pred_pos", "pred_val", "pred_level") and rng.random() < 0.3:
+    if k in ("pred_pos", "pred_val", "pred_level", "pred_none") and rng.random() < 0.3:
         c["off"] = rng.choice(["part", "sink"])
     return c
 
@@ -178,6 +181,25 @@ def build_kwargs(call, world, counter, raise_at):
     if "sortby" in call:
         kw["sortby"] = dict(call["sortby"])
     return kw
+
+
+def requested(call, group):
+    """Does this call ask for `group` (by its arguments alone)?"""
+    k = call["kind"]
+    if k == "groups":
+        return group in call["groups"]
+    if k == "mesh_off":
+        return group != "mesh"
+    if k == "part_only":
+        return group == "part"
+    return call.get("off") != group
+
+
+def group_rows(ds, g):
+    if g not in ds or not len(ds[g].keys()):
+        return 0
+    sh = ds[g].shape
+    return int(sh[0]) if len(sh) else 1
 
 
 def snapshot(ds):
@@ -315,10 +337,24 @@ def execute(case, stats):
                     break
             if viol:
                 break
-            if "mesh" in fs and "level" in fs["mesh"] and ds.meta.get("ncells") != fresh.meta.get("ncells"):
+            if call["kind"] == "pred_none" and "mesh" in fs and not fs["mesh"]:
+                stats.inc("probe.call_selecting_no_cell_returns_empty_group")
+            if "mesh" in fs and ("level" in fs["mesh"] or (call["kind"] == "pred_none" and not fs["mesh"])) and ds.meta.get("ncells") != fresh.meta.get("ncells"):
                 V("history-dependence", "meta-ncells", {"meta": int(ds.meta.get("ncells", -1)), "fresh": int(fresh.meta.get("ncells", -1))}, step, call)
             if "part" in fs and len(fs["part"]) and ds.meta.get("nparticles") != fresh.meta.get("nparticles"):
                 V("history-dependence", "meta-nparticles", {"meta": int(ds.meta.get("nparticles", -1)), "fresh": int(fresh.meta.get("nparticles", -1))}, step, call)
+            # the counts in the metadata match the groups of the dataset after a call that asked for them
+            # (independent of what this tree's fresh dataset registers: the rule for "asked for" comes from the arguments)
+            if not viol and requested(call, "mesh"):
+                rows = group_rows(ds, "mesh")
+                if ds.meta.get("ncells") is not None and int(ds.meta["ncells"]) != rows:
+                    V("history-dependence", "meta-ncells-vs-group", {"meta": int(ds.meta["ncells"]), "rows_in_dataset": rows,
+                                                                    "history": [c["kind"] for c in case["calls"][:step]]}, step, call)
+            if not viol and requested(call, "part") and p["part"] is not None:
+                rows = group_rows(ds, "part")
+                if ds.meta.get("nparticles") is not None and int(ds.meta["nparticles"]) != rows:
+                    V("history-dependence", "meta-nparticles-vs-group", {"meta": int(ds.meta["nparticles"]), "rows_in_dataset": rows,
+                                                                        "history": [c["kind"] for c in case["calls"][:step]]}, step, call)
             kinds_ok.append(call["kind"])
             if call["kind"] in ("pred_pos", "pred_level", "cpu_list", "vars"):
                 stateful = True
